@@ -119,7 +119,7 @@ theorem NodeOkT.mono {s : SchemaD} {doc : Doc} {vars : Vars} {A B : TSels} {rt :
 
 def CollectSoundT (s : SchemaD) (doc : Doc) (vars : Vars) (rec : String → List Sel → List String → R (Grouped × List String)) : Prop :=
   ∀ obj (L : TSels) seen, SelsUnderT s doc vars obj L →
-    NoInt (rec obj (L.map (·.2)) seen) ∧
+    NoIntC (rec obj (L.map (·.2)) seen) ∧
     ∀ g seen', rec obj (L.map (·.2)) seen = .ok (g, seen') → GroupOk (NodeOkT s doc vars L obj) g
 
 private theorem collectStep_soundT (s : SchemaD) (doc : Doc) (vars : Vars) (hf : fragsOk s doc vars = true)
@@ -127,7 +127,7 @@ private theorem collectStep_soundT (s : SchemaD) (doc : Doc) (vars : Vars) (hf :
     (L0 : TSels) :
     ∀ (L : TSels), (∀ x ∈ L, x ∈ L0) → ∀ (seen : List String) (g : Grouped), SelsUnderT s doc vars obj L →
       GroupOk (NodeOkT s doc vars L0 obj) g →
-      NoInt (collectStep s doc vars rec obj (L.map (·.2)) seen g) ∧
+      NoIntC (collectStep s doc vars rec obj (L.map (·.2)) seen g) ∧
       ∀ g' seen', collectStep s doc vars rec obj (L.map (·.2)) seen g = .ok (g', seen') → GroupOk (NodeOkT s doc vars L0 obj) g' := by
   intro L
   induction L with
@@ -150,7 +150,9 @@ private theorem collectStep_soundT (s : SchemaD) (doc : Doc) (vars : Vars) (hf :
     cases sel with
     | field key name loc dirs args hs sub =>
       simp only [selOk, Bool.and_eq_true] at hsel
-      obtain ⟨b, hb⟩ := skipSelection_ok vars dirs hsel.1
+      rcases hb : skipSelection vars dirs with e | b
+      · simp only [collectStep, hb, bind, Except.bind]
+        exact ⟨noIntC_skip hb, by intro g' seen' h; simp at h⟩
       simp only [collectStep, hb, bind, Except.bind]
       cases b with
       | true => simpa using ih hsubr seen g hrest hg
@@ -180,7 +182,9 @@ private theorem collectStep_soundT (s : SchemaD) (doc : Doc) (vars : Vars) (hf :
         simpa using ih hsubr seen _ hrest (extend_groupOk _ _ _ _ hg (by simp) (by intro n hn; simp at hn; subst hn; exact hnode))
     | inline on dirs sub =>
       simp only [selOk, Bool.and_eq_true] at hsel
-      obtain ⟨b, hb⟩ := skipSelection_ok vars dirs hsel.1
+      rcases hb : skipSelection vars dirs with e | b
+      · simp only [collectStep, hb, bind, Except.bind, pure, Except.pure]
+        exact ⟨noIntC_skip hb, by intro g' seen' h; simp at h⟩
       simp only [collectStep, hb, bind, Except.bind, pure, Except.pure]
       cases b with
       | true => simpa using ih hsubr seen g hrest hg
@@ -230,7 +234,9 @@ private theorem collectStep_soundT (s : SchemaD) (doc : Doc) (vars : Vars) (hf :
       | none => simp [hfr] at hsel
       | some fr =>
         obtain ⟨hcomp, hbody, _⟩ := fragment_ok s doc vars hf name fr hfr
-        obtain ⟨b, hb⟩ := skipSelection_ok vars dirs hsel.1
+        rcases hb : skipSelection vars dirs with e | b
+        · simp only [collectStep, hfr, hb, bind, Except.bind, pure, Except.pure]
+          exact ⟨noIntC_skip hb, by intro g' seen' h; simp at h⟩
         simp only [collectStep, hfr, hb, bind, Except.bind, pure, Except.pure]
         cases b with
         | true => simpa using ih hsubr seen g hrest hg
@@ -384,6 +390,7 @@ private theorem executeGroups_noIntT (s : SchemaD) (hs : SchemaOk s) (doc : Doc)
               · rename_i hb; simp [hb] at hwt
               · rename_i v hv
                 simp only [hv] at hwt
+                rw [catchField_internal] at h'
                 refine completeValue_noInt s execSub (node :: more) fd.type _ v (hs.kinds rt node.name fd hfo) hwt ?_ cls' h'
                 intro rt' p hobj hu
                 obtain ⟨L', hmap, hsu', hcov⟩ := merged_tagged s hs doc vars L rt node.name fd hfo rt' hu (node :: more) hnodes
@@ -417,10 +424,13 @@ private theorem executeFields_noIntT (s : SchemaD) (hs : SchemaOk s) (doc : Doc)
     simp only [executeFields, bind, Except.bind, pure, Except.pure] at h
     obtain ⟨hni, hgo⟩ := collect_soundT s doc vars hf cf rt L [] hsu
     cases h1 : collectFields s doc vars cf rt (L.map (·.2)) [] with
-    | error e => simp [h1] at h; exact hni cls (by rw [h1, h])
+    | error e =>
+      simp [h1] at h
+      obtain ⟨he, hne⟩ := (Fail.directive_eq_internal e cls).mp h
+      exact hne (hni cls (by rw [h1, he]))
     | ok p1 =>
       obtain ⟨g, seen'⟩ := p1
-      simp only [h1] at h
+      simp only [h1, catchDirective_ok] at h
       have hk := (alias_merge s doc vars cf rt _ [] g seen' h1).2
       have hg := hgo g seen' h1
       cases h2 : executeGroups s w (executeFields s doc vars w cf n) rt path g with
@@ -432,9 +442,11 @@ private theorem executeFields_noIntT (s : SchemaD) (hs : SchemaOk s) (doc : Doc)
 
 /-- **validated_no_internal_error** — under the premise the validator guarantees. For every schema whose objects
     implement their interfaces covariantly and whose fields have known output types, every document satisfying the
-    declarative `ValidDoc` and `MergeSafe` (OverlappingFieldsCanBeMerged; NOT the stronger `KeyConsistent`), every variable
-    assignment under which `ValidDoc` holds, every typed world, every operation name and every fuel: the request never ends
-    in an internal exception. -/
+    declarative `ValidDoc` and `MergeSafe` (OverlappingFieldsCanBeMerged; NOT the stronger `KeyConsistent`), EVERY variable
+    assignment (`ValidDoc` no longer constrains the `@skip`/`@include` conditions: a condition that is not a Boolean at run
+    time — `if: [true]`, a nullable variable with a default bound to `null` — is a field error since 4e87d3d, see
+    `Lemmas.C04Raise.executeFields_raised`), every typed world (including iterables and `resolve_type`s that raise
+    `ResolverError`), every operation name and every fuel: the request never ends in an internal exception. -/
 theorem validated_no_internal_error (s : SchemaD) (hs : SchemaOk s) (doc : Doc) (vars : Vars) (hv : ValidDoc s doc vars)
     (hm : MergeSafe s doc) (w : World) (hw : WorldTyped s w) :
     ∀ (op : Option String) (fuel cf : Nat) (cls : String), execute s doc vars w op fuel cf ≠ .failed (.internal cls) := by
@@ -468,10 +480,9 @@ theorem validated_no_internal_error (s : SchemaD) (hs : SchemaOk s) (doc : Doc) 
         cases hr : executeFields s doc vars w cf fuel root [] o.sels with
         | ok p => simp
         | error f =>
-          simp only []
-          intro hh
-          simp at hh
-          exact this cls (by rw [hr, hh])
+          cases f with
+          | internal c => exact absurd hr (this c)
+          | _ => simp
 
 
 /-! ### the Boolean evaluator is sound for the declarative predicate -/
